@@ -968,9 +968,11 @@ func (tx *Transaction) WriteRequestBody(b []byte) (*types.Interruption, int, err
 		}
 
 		if tx.WAF.RequestBodyLimitAction == types.BodyLimitActionProcessPartial {
-			writingBytes = tx.RequestBodyLimit - tx.requestBodyBuffer.length
-			if writingBytes < 0 {
-				writingBytes = 0
+			// the limit may have been lowered (ctl) below what is already buffered, or be negative:
+			// comparing first keeps the subtraction from going negative or wrapping around
+			writingBytes = 0
+			if tx.RequestBodyLimit > tx.requestBodyBuffer.length {
+				writingBytes = tx.RequestBodyLimit - tx.requestBodyBuffer.length
 			}
 			runProcessRequestBody = true
 		}
@@ -1241,9 +1243,11 @@ func (tx *Transaction) WriteResponseBody(b []byte) (*types.Interruption, int, er
 		}
 
 		if tx.WAF.ResponseBodyLimitAction == types.BodyLimitActionProcessPartial {
-			writingBytes = tx.ResponseBodyLimit - tx.responseBodyBuffer.length
-			if writingBytes < 0 {
-				writingBytes = 0
+			// the limit may have been lowered (ctl) below what is already buffered, or be negative:
+			// comparing first keeps the subtraction from going negative or wrapping around
+			writingBytes = 0
+			if tx.ResponseBodyLimit > tx.responseBodyBuffer.length {
+				writingBytes = tx.ResponseBodyLimit - tx.responseBodyBuffer.length
 			}
 			runProcessResponseBody = true
 		}
